@@ -468,6 +468,55 @@ def rule_or(ctx):
         else:
             rep.ob('OR', K.key(cls, 'ordered', 'source'), val[0] == 'const', mem.node, str(val), nontrivial=False)
     rep.floor('ordered properties analysed', n, 20)
+    # a one-time shuffle is never answered with a re-drawing stage: in Dataset.shuffle every construction of a stage whose
+    # iteration draws random numbers is reached only when `reshuffle is True` holds (if-guard or a dominating assert)
+    sh = ctx.repo.dataset_base().own('shuffle')
+    if sh is None:
+        raise AnalysisError('anchor vanished: Dataset.shuffle')
+    fam = {c.name: c for c in K.family(ctx)}
+    pars = [a_.arg for a_ in sh.node.args.args]
+    flag = 'reshuffle' if 'reshuffle' in pars else (pars[1] if len(pars) > 1 else None)
+
+    def says_true(t0, truth):
+        t, neg = A.strip_not(t0)
+        if isinstance(t, ast.Compare) and len(t.ops) == 1 and A.is_name(t.left, flag) and A.is_const(t.comparators[0], True):
+            pos = isinstance(t.ops[0], (ast.Is, ast.Eq))
+            return (pos != neg) == truth
+        if A.is_name(t, flag):
+            return (not neg) == truth
+        return False
+    sites = 0
+    for c in A.walk_local(sh.node):
+        if not (isinstance(c, ast.Call) and isinstance(c.func, ast.Name) and c.func.id in fam):
+            continue
+        X = fam[c.func.id]
+        if not [e for e in ctx.effects.closed_effects(X, '__iter__') if e.etype == 'RNG_DRAW']:
+            continue
+        sites += 1
+        ok = any(says_true(t0, truth) for t0, truth in flow.guards_of(c, sh.node))
+        if not ok:
+            # a dominating assert: same or enclosing block, earlier statement
+            stmt = c
+            while not isinstance(A.parent(stmt), (ast.FunctionDef, ast.If, ast.For, ast.While, ast.With, ast.Try)) \
+                    or not isinstance(stmt, ast.stmt):
+                stmt = A.parent(stmt)
+            blocks = []
+            x = stmt
+            while x is not None and x is not sh.node:
+                par = A.parent(x)
+                for fld in ('body', 'orelse', 'finalbody'):
+                    blk = getattr(par, fld, None)
+                    if isinstance(blk, list) and any(y is x for y in blk):
+                        blocks.append((blk, [y is x for y in blk].index(True)))
+                x = par
+            for blk, i in blocks:
+                for y in blk[:i]:
+                    if isinstance(y, ast.Assert) and says_true(y.test, True):
+                        ok = True
+        rep.ob('OR', K.key(ctx.repo.dataset_base(), 'shuffle', 're-drawing-stage-only-when-reshuffle-is-True(%s)' % X.name), ok, c,
+               '' if ok else '%s (draws a new order in every iteration) is constructed without `%s is True` being established: '
+               'a requested one-time shuffle silently becomes a per-epoch reshuffle' % (X.name, flag))
+    rep.floor('re-drawing stages constructed in Dataset.shuffle', sites, 2)
 
 
 def rule_pf(ctx):
@@ -524,7 +573,16 @@ def rule_pf(ctx):
     rep.floor('iterations over a frozen copy', sites, 3)
 
 
+def rule_sg(ctx):
+    """copy() is called without arguments by prefetch workers, lazy apply, the profiler and users: the default must be
+    the faithful (unfrozen) copy everywhere, or `ds.copy()` silently pins the order of one stage"""
+    n = K.sibling_default(ctx, 'SG', 'copy', 'freeze', False,
+                          'a plain copy() of this stage would freeze the random stages below it')
+    ctx.report.floor('copy() signatures with freeze', n, 10)
+
+
 def run(ctx):
+    rule_sg(ctx)
     rule_cc(ctx)
     rule_fz(ctx)
     rule_rs(ctx)
